@@ -162,6 +162,7 @@ TI_Sector == InCall => SectorFormula
 TI_Flags == InCall => (FlagsOK /\ FlagsComplete)
 TI_Logs  == InCall => LogsOK
 TI_OutDeps == InCall => OutDepsOK
+TI_Kin == InCall => KinTypeOK
 
 ASSUME TLCSet(1, 1)
 Track == TLCSet(1, IF l > TLCGet(1) THEN l ELSE TLCGet(1))
